@@ -109,7 +109,7 @@ type c02Authority struct {
 }
 
 func c02Authorities(c *sup.Ctx) []c02Authority {
-	factSets := [][]refdl.Atom{{}, {fRightR}, {fRightR, fResF}, {fRightR, fResF, fOpRead, fUser}}
+	factSets := [][]refdl.Atom{{}, {fRightR, fResF}, {fRightR, fResF, fUser}}
 	if c.Thorough() {
 		factSets = nil
 		base := []refdl.Atom{fRightR, fResF, fOpRead, fUser}
@@ -129,9 +129,17 @@ func c02Authorities(c *sup.Ctx) []c02Authority {
 		rules = append(rules, []refdl.Rule{rAllowed2})
 		checks = append(checks, []refdl.Check{chk(q(atom("resource", vx), atom("right", vx, sRead)))})
 	}
-	earlier := [][]refdl.Block{{}, {{Checks: []refdl.Check{chk(q(fOpRead))}}}}
+	// earlier blocks: none; a check-only block; a block with an own fact and a check that only
+	// an appended block's content could satisfy; two blocks whose first check fails
+	earlier := [][]refdl.Block{
+		{},
+		{{Checks: []refdl.Check{chk(q(fOpRead))}}},
+		{{Facts: []refdl.Atom{fResG}, Checks: []refdl.Check{chk(q(fAdmin))}}},
+		{{Checks: []refdl.Check{chk(q(fRightW))}}, {Facts: []refdl.Atom{fResG}, Checks: []refdl.Check{chk(qTrue)}}},
+	}
 	if c.Thorough() {
-		earlier = append(earlier, []refdl.Block{{Facts: []refdl.Atom{fResG}, Rules: []refdl.Rule{rAllowed}}})
+		earlier = append(earlier, []refdl.Block{{Facts: []refdl.Atom{fResG}, Rules: []refdl.Rule{rAllowed}}},
+			[]refdl.Block{{Facts: []refdl.Atom{atom("user", rx.Str("bob"))}, Checks: []refdl.Check{chk(q(fAllowedF))}}, {Checks: []refdl.Check{chk(q(fOpRead))}}, {Facts: []refdl.Atom{fResG}}})
 	}
 	var out []c02Authority
 	for _, fs := range factSets {
